@@ -70,9 +70,9 @@ def _is_call_to(ctx: Ctx, f: FuncInfo, c: ast.Call, qual: str) -> bool:
 
 def _wait_helper_of(ctx: Ctx, f: FuncInfo, e: ast.AST, helper_quals: tuple[str, ...]) -> ast.Call | None:
     """The wait_until/wait_timestamp call (if any) the expression e is derived from (through locals)."""
-    for x in C.expand_locals(f, e):
+    for fn, x in C.deep_defs(ctx, f, e):
         for sub in ast.walk(x):
-            if isinstance(sub, ast.Call) and any(_is_call_to(ctx, f, sub, q) for q in helper_quals):
+            if isinstance(sub, ast.Call) and any(_is_call_to(ctx, fn, sub, q) for q in helper_quals):
                 return sub
     return None
 
@@ -150,7 +150,9 @@ def route_rules(ctx: Ctx, rule: str, ops=("enqueue", "requeue", "reject")) -> No
     piq = ctx.func(f"{C.REDIS_BROKER}.__put_in_queue")
     for op in ops:
         f = ctx.func(f"{C.REDIS_BROKER}.{op}")
-        calls = _calls(f, lambda c: _is_call_to(ctx, f, c, piq.qualname))
+        from .brokers import piq_sites
+
+        calls = piq_sites(ctx, f)
         if not ctx.check(len(calls) >= 1, rule, f, f"redis {op}: uses __put_in_queue", "insertion through the routing helper",
                          f"redis {op} does not insert through __put_in_queue (routing by due time lost)", instance=f"redis {op}: helper used"):
             continue
@@ -221,20 +223,33 @@ def route_rules(ctx: Ctx, rule: str, ops=("enqueue", "requeue", "reject")) -> No
               instance="rabbitmq enqueue: routing key")
     # the expiration is dropped only when not positive (already due)
     if isinstance(exp, ast.Name):
-        g = ctx.cfg(f)
-        st = [n for n in g.nodes if n.kind == "store" and n.target == exp.id and not C.is_const(n.meta.get("value"), None)]
+        owner, vals = _expiration_values(ctx, f, exp.id)
+        g = ctx.cfg(owner)
         tests = [n for n in g.nodes if n.kind == "test"]
-        ok = False
-        for s in st:
+        ok = bool(vals(g))
+        for s in vals(g):
+            under = False
             for t in tests:
                 if isinstance(t.ast, ast.Compare) and isinstance(t.ast.ops[0], (ast.Gt, ast.GtE)) and C.is_const(t.ast.comparators[0], 0):
                     if s.id in flow.reach(g, [t.id], ("T",)) | flow.reach(g, flow.reach(g, [t.id], ("T",)), flow.NORMAL_KINDS):
-                        ok = True
+                        under = True
+            ok = ok and under
         ctx.check(ok, rule, f, "rabbitmq enqueue: expiration set when millis > 0", "already-due messages are published directly",
                   "rabbitmq enqueue: the expiration is not set under a `millis > 0` test", instance="rabbitmq enqueue: positive expiration")
     if "requeue" in ops:
         f = ctx.func(f"{C.RABBIT_BROKER}.requeue")
         _passthrough(ctx, rule, f, ctx.cfg(f), "rabbitmq requeue")
+
+
+def _expiration_values(ctx: Ctx, f: FuncInfo, name: str):
+    """Where the RabbitMQ expiration gets a value: (owner function, cfg -> nodes producing a non-None expiration). Either stores to the local in
+    enqueue itself, or the non-None returns of the private helper the local is computed by."""
+    defs = C.local_defs(f, name)
+    if len(defs) == 1 and isinstance(defs[0], ast.Call):
+        cals = [c for c in ctx.res.callees(f, defs[0], record=False) if c.qualname in {h.qualname for h in C.helper_callees(ctx, f)}]
+        if len(cals) == 1:
+            return cals[0], (lambda g: [n for n in g.nodes if n.kind == "return" and isinstance(n.ast, ast.Return) and n.ast.value is not None and not C.is_const(n.ast.value, None)])
+    return f, (lambda g: [n for n in g.nodes if n.kind == "store" and n.target == name and not C.is_const(n.meta.get("value"), None)])
 
 
 def _passthrough(ctx: Ctx, rule: str, f: FuncInfo, g, label: str) -> None:
@@ -384,11 +399,13 @@ def rounding(ctx: Ctx, rule: str) -> None:
     props = C.kw(pubs[0], "properties") if pubs else None
     exp = C.kw(props, "expiration") if isinstance(props, ast.Call) else None
     ctx.require(exp is not None, f"{f.qualname}: expiration property not found (anchor vanished)")
-    defs = [d for x in C.expand_locals(f, exp) for d in [x] if isinstance(x, (ast.Call, ast.BinOp))]
+    dd = [(fn_, x) for fn_, x in C.deep_defs(ctx, f, exp) if isinstance(x, (ast.Call, ast.BinOp))]
+    owner_of = {id(x): fn_ for fn_, x in dd}
+    defs = [x for _, x in dd]
     conv = [d for d in defs if rounding_of(d)[0] != "exact"]
     from .delay import _component_reads
 
-    if not any(comps & {"seconds", "microseconds"} for comps in _component_reads(f.node).values()):  # a component-wise conversion is judged by whole_duration_rule
+    if not any(comps & {"seconds", "microseconds"} for fn_ in [f] + C.helper_callees(ctx, f) for comps in _component_reads(fn_.node).values()):  # a component-wise conversion is judged by whole_duration_rule
         ctx.floor(rule, len(conv), 1, "integer conversions feeding the RabbitMQ expiration")
     for d in conv:
         direction, gran = rounding_of(d)
@@ -397,8 +414,9 @@ def rounding(ctx: Ctx, rule: str) -> None:
                   f"rabbitmq enqueue computes the TTL with {unparse(d)[:80]}: rounds {direction} at 1 {gran}, a message can leave the delayed queue "
                   "up to a second early", node=d, instance="rabbitmq expiration rounding")
         # time left = due - now
+        d_full = C.inline_locals(owner_of.get(id(d), f), d, calls="all") or d  # `remaining = due - now` may be a local of its own
         ok2 = any(isinstance(b, ast.BinOp) and isinstance(b.op, ast.Sub) and any((dotted(c.func) or "").endswith("datetime.now") for c in ast.walk(b.right) if isinstance(c, ast.Call))
-                  for b in ast.walk(d))
+                  for b in ast.walk(d_full))
         ctx.check(ok2, rule, f, "rabbitmq expiration = due - now", "time left until due",
                   f"rabbitmq enqueue: the TTL {unparse(d)[:80]} is not (due time - now)", node=d, instance="rabbitmq expiration base")
 
